@@ -1743,7 +1743,8 @@ class Pipeline(object):
             ctx.broken.append('correspondence c06.fields: the C struct reader no longer builds against '
                               'gitypelib-internal.h (a member the generated layout names is gone): %s' % str(e)[-300:])
         self.sizes = self.read_sizes()
-        self.dirs = 0
+        import itertools
+        self._dir_counter = itertools.count(1)
 
     def read_sizes(self):
         path = os.path.join(VERIF, 'lean', 'GIVerif', 'Gen', 'TypelibConsts.lean')
@@ -1759,8 +1760,8 @@ class Pipeline(object):
                 'major': int(m.group(1)) if m else -1}
 
     def newdir(self):
-        self.dirs += 1
-        d = os.path.join(self.ctx.scratch, 'g%05d' % self.dirs)
+        n = next(self._dir_counter)          # called from worker threads
+        d = os.path.join(self.ctx.scratch, 'g%06d' % n)
         os.makedirs(d)
         return d
 
@@ -2093,6 +2094,10 @@ class Judge(object):
             os.symlink(r['path'], os.path.join(d, '%s-%s.typelib' % (dns, dver)))
         rec['res'] = pipe.compile(d, case['ns'], case['version'], case['gir'], case.get('shlib_option'),
                                   twice=case.get('twice', True))
+        # third reading of the same bytes: the public repository API (done here: this runs in the worker pool)
+        rec['public'] = None
+        if rec['res']['data'] is not None and len(rec['res']['data']) < 400000 and not case.get('no_public'):
+            rec['public'] = pipe.public_names(d, case['ns'])
         return rec
 
     def api_key(self, case, what):
@@ -2270,22 +2275,31 @@ class Judge(object):
         if not raw['sections']:
             self.cnt.hit('section:none')
 
-    def run_cases(self, cases, workers=8):
-        ctx = self.ctx
+    def run_cases(self, cases, workers=None):
+        """compile (process pool of compilers), then decode / validate chunk-wise with several model-driver and
+        C-reader processes at a time; the judging itself (oracle, comparison) runs in this thread, in case order"""
+        import shutil
+        if workers is None:
+            workers = max(4, min(16, os.cpu_count() or 8))
         with concurrent.futures.ThreadPoolExecutor(max_workers=workers) as ex:
             recs = list(ex.map(self.prepare, cases))
         ready = [r for r in recs if self.judge_compile(r)]
-        for i in range(0, len(ready), 40):
-            chunk = ready[i:i + 40]
+        chunks = [ready[i:i + 40] for i in range(0, len(ready), 40)]
+
+        def read(chunk):
             decs = self.pipe.decode_many([r['res']['data'] for r in chunk], with_fields=True)
             cvals = self.pipe.c_validate([r['res']['path'] for r in chunk])
-            for j, (r, dec) in enumerate(zip(chunk, decs)):
-                pub = None
-                if len(r['res']['data']) < 400000:
-                    pub = self.pipe.public_names(r['dir'], r['case']['ns'])
-                self.judge_decoded(r, dec, None if cvals is None else cvals[j], pub)
-            self.compare_fields(chunk, decs)
-        import shutil
+            return decs, cvals
+
+        par = max(2, min(6, workers // 2))
+        for w in range(0, len(chunks), par):
+            window = chunks[w:w + par]
+            with concurrent.futures.ThreadPoolExecutor(max_workers=par) as ex:
+                results = list(ex.map(read, window))
+            for chunk, (decs, cvals) in zip(window, results):
+                for j, (r, dec) in enumerate(zip(chunk, decs)):
+                    self.judge_decoded(r, dec, None if cvals is None else cvals[j], r.get('public'))
+                self.compare_fields(chunk, decs)
         for r in recs:
             shutil.rmtree(r['dir'], ignore_errors=True)
         return recs
@@ -2434,7 +2448,7 @@ def run(ctx):
                 'dep_ids': [tuple(x) for x in rp['dep_ids']], 'shlib_option': rp['shlib_option']}
 
         def still_fails(cand):
-            rec = judge.prepare(dict(cand, twice=False))
+            rec = judge.prepare(dict(cand, twice=False, no_public=True))
             try:
                 if rec['res']['data'] is None:
                     return False
